@@ -17,6 +17,7 @@ from .values import (
     JSArray,
     JSFunction,
     JSRegExp,
+    JSBoundMethod,
     JSTypedArray,
     JSArrayBuffer,
     to_boolean,
@@ -840,11 +841,16 @@ class VM:
             method_order = ["valueOf", "toString"]
 
         for method_name in method_order:
-            method = value.get(method_name)
+            method = self._get_property(value, method_name)
             if method is UNDEFINED or method is NULL:
                 continue
             if isinstance(method, JSFunction):
                 result = self._call_callback(method, [], value)
+                if not isinstance(result, JSObject):
+                    return result
+            elif isinstance(method, JSBoundMethod):
+                # Built-in prototype methods take the receiver as first argument
+                result = method(value)
                 if not isinstance(result, JSObject):
                     return result
             elif callable(method):
